@@ -5,7 +5,7 @@ from ..runner import Prop, Stage, Result, Draw
 
 LIFE = re.compile(r' after -?\d+\.\d{4}s')
 # the default mix plus messages on objects the log never showed being created (a log that starts mid-session)
-WEIGHTS = dict(delete=14, bind=12, message=40, server_event=10, sync=4, enum=8, title=6, retype=6, newer=4, nulls=4, midsession=7)
+WEIGHTS = dict(repeat=4, delete=14, bind=12, message=40, server_event=10, sync=4, enum=8, title=6, retype=6, newer=4, nulls=4, midsession=7)
 
 
 def projection(s, conn):
